@@ -93,9 +93,12 @@ template <class G> void mutateWeighted(G &g, Rng &r) {
     else g.removeEdge(i, j);
 }
 template <class G> void weightedCells(std::vector<Cell<G>> &c, std::vector<IaCell<G>> &ia) {
-    c.push_back({"addEdge(i,j,w,force)", 2, 3, [](G &g, VertexIndex a, VertexIndex b, unsigned f) {
-                     if (f == 2) g.addEdge(a, b, 1.5);
-                     else g.addEdge(a, b, 1.5, f != 0);
+    c.push_back({"addEdge(i,j,w,force)", 2, 7, [](G &g, VertexIndex a, VertexIndex b, unsigned f) {
+                     // flags 3..6: the same with weights that swamp the running total (a rejected call must not leave rounding behind)
+                     static const double big[] = {1e25, 1e300, -1e300, 1.7976931348623157e308};
+                     double w = f >= 3 ? big[f - 3] : 1.5;
+                     if (f == 2) g.addEdge(a, b, w);
+                     else g.addEdge(a, b, w, f == 0 ? false : true);
                  }});
     c.push_back({"removeEdge(i,j)", 2, 1, [](G &g, VertexIndex a, VertexIndex b, unsigned) { g.removeEdge(a, b); }});
     c.push_back({"hasEdge(i,j)", 2, 1, [](G &g, VertexIndex a, VertexIndex b, unsigned) { (void)g.hasEdge(a, b); }});
@@ -103,7 +106,7 @@ template <class G> void weightedCells(std::vector<Cell<G>> &c, std::vector<IaCel
                      if (f == 2) (void)g.getEdgeWeight(a, b);
                      else (void)g.getEdgeWeight(a, b, f != 0);
                  }});
-    c.push_back({"setEdgeWeight(i,j,w)", 2, 1, [](G &g, VertexIndex a, VertexIndex b, unsigned) { g.setEdgeWeight(a, b, 2.25); }});
+    c.push_back({"setEdgeWeight(i,j,w)", 2, 3, [](G &g, VertexIndex a, VertexIndex b, unsigned f) { g.setEdgeWeight(a, b, f == 0 ? 2.25 : f == 1 ? 1e300 : -1e25); }});
     c.push_back({"removeVertexFromEdgeList(v)", 1, 1, [](G &g, VertexIndex a, VertexIndex, unsigned) { g.removeVertexFromEdgeList(a); }});
     c.push_back({"getOutNeighbours(v)", 1, 1, [](G &g, VertexIndex a, VertexIndex, unsigned) { (void)g.getOutNeighbours(a); }});
     c.push_back({"findGeodesicsDijkstra(g,v)", 1, 1, [](G &g, VertexIndex a, VertexIndex, unsigned) { (void)alg::findGeodesicsDijkstra(g, a); }});
